@@ -93,9 +93,10 @@ Definition op_array (cap : N) (esz : N) (m : mem) (count : Z) : res * mem * list
               else (RAbort, m, [ECheck size true; EHost bytes])
             else (ROom, m, [ECheck size false]).
 
-(* a vec: length, capacity (in elements of 8 bytes) and what the heap has been charged for it *)
-Record vecst := mkVec { vlen : N; vcap : N; vcharged : N }.
-Definition vec_bytes (v : vecst) : N := SZ_VEC + vcap v * SZ_VALUE.
+(* a vec: length, capacity (in elements), bytes per element (1 for Vec<Bool>, 8 otherwise) and what the heap has
+   been charged for it *)
+Record vecst := mkVec { vlen : N; vcap : N; vcharged : N; velem : N }.
+Definition vec_bytes (v : vecst) : N := SZ_VEC + vcap v * velem v.
 Definition USIZE_MAX : N := U64 - 1.
 (* VM::vec_reserve_checked: the growth is computed first (amortised doubling, or the exact need when the
    doubling does not fit), checked, performed with reserve_exact and recorded with Heap::account_growth *)
@@ -104,19 +105,19 @@ Definition vec_grow (cap : N) (m : mem) (v : vecst) (add : N) : res * mem * vecs
   else if USIZE_MAX <? vlen v + add then (ROom, m, v, [])
   else let required := vlen v + add in
        let amortised := N.max required (N.max (2 * vcap v) 4) in
-       let bytes_of (nc : N) := (nc - vcap v) * SZ_VALUE in
+       let bytes_of (nc : N) := (nc - vcap v) * velem v in
        let finish (nc : N) :=
-         if host_ok cap (nc * SZ_VALUE)
-         then (ROk, add_heap m (bytes_of nc), mkVec (vlen v) nc (vcharged v + bytes_of nc),
-               [ECheck (bytes_of nc) true; EHost (nc * SZ_VALUE); ECharge (bytes_of nc)])
-         else (RAbort, m, v, [ECheck (bytes_of nc) true; EHost (nc * SZ_VALUE)]) in
+         if host_ok cap (nc * velem v)
+         then (ROk, add_heap m (bytes_of nc), mkVec (vlen v) nc (vcharged v + bytes_of nc) (velem v),
+               [ECheck (bytes_of nc) true; EHost (nc * velem v); ECharge (bytes_of nc)])
+         else (RAbort, m, v, [ECheck (bytes_of nc) true; EHost (nc * velem v)]) in
        if (bytes_of amortised <? U64) && ensure m (bytes_of amortised) then finish amortised
        else if U64 <=? bytes_of required then (ROom, m, v, [])
        else if ensure m (bytes_of required) then finish required
        else (ROom, m, v, [ECheck (bytes_of required) false]).
 Definition op_vec_push (cap : N) (m : mem) (v : vecst) : res * mem * vecst * list evt :=
   match vec_grow cap m v 1 with
-  | (ROk, m', v', t) => (ROk, m', mkVec (vlen v' + 1) (vcap v') (vcharged v'), t)
+  | (ROk, m', v', t) => (ROk, m', mkVec (vlen v' + 1) (vcap v') (vcharged v') (velem v'), t)
   | r => r
   end.
 Definition op_vec_reserve (cap : N) (m : mem) (v : vecst) (additional : Z) : res * mem * vecst * list evt :=
@@ -141,16 +142,17 @@ Definition op_repeat (cap : N) (m : mem) (slen : N) (n : Z) : res * mem * list e
               if host_ok cap total then (ROk, add_heap m size, [ECheck size true; EHost total; ECheck size true; EHost total; ECharge size])
               else (RAbort, m, [ECheck size true; EHost total])
             else (ROom, m, [ECheck size false]).
-(* string.pad_left / pad_right (one-byte pad character): a width that is not larger than the string
-   (or negative) returns the string itself; otherwise the resulting length is checked first *)
-Definition op_pad (cap : N) (m : mem) (slen : N) (width : Z) : res * mem * list evt :=
-  if (width <=? 0)%Z || (Z.to_N width <=? slen) then (ROk, m, [])        (* make_string(s): already interned *)
-  else let w := Z.to_N width in
-       if ISIZE_MAX <? w then (ROom, m, [])
-       else let size := SZ_STRING + w in
+(* string.pad_left / pad_right of a string of `schars` characters / `sbytes` bytes with a pad character of `pb`
+   bytes: a width that is not larger than the string (or negative) returns the string itself; otherwise the
+   resulting BYTE length (width - chars) * pb + bytes is checked first *)
+Definition op_pad (cap : N) (m : mem) (schars sbytes pb : N) (width : Z) : res * mem * list evt :=
+  if (width <=? 0)%Z || (Z.to_N width <=? schars) then (ROk, m, [])        (* make_string(s): already interned *)
+  else let total := (Z.to_N width - schars) * pb + sbytes in
+       if ISIZE_MAX <? total then (ROom, m, [])
+       else let size := SZ_STRING + total in
             if ensure m size then
-              if host_ok cap (3 * w) then (ROk, add_heap m size, [ECheck size true; EHost (w - slen); EHost w; ECheck size true; EHost w; ECharge size])
-              else (RAbort, m, [ECheck size true; EHost (w - slen)])
+              if host_ok cap (3 * total) then (ROk, add_heap m size, [ECheck size true; EHost (total - sbytes); EHost total; ECheck size true; EHost total; ECharge size])
+              else (RAbort, m, [ECheck size true; EHost (total - sbytes)])
             else (ROom, m, [ECheck size false]).
 
 (* s = s + s, k times, no collection in between (valid while the heap stays below the GC threshold) *)
@@ -178,7 +180,7 @@ Fixpoint host_total (t : list evt) : N :=
 (* ---- histories: every allocating primitive *)
 Inductive gop := GStr (len : N) | GObj (size : N) | GManual (n : Z) | GManualFree (bytes : N) | GSweep (size : N)
                | GArray (esz : N) (count : Z) | GVecPush (v : vecst) | GVecReserve (v : vecst) (additional : Z)
-               | GRepeat (slen : N) (n : Z) | GPad (slen : N) (width : Z) | GBytes (n : Z).
+               | GRepeat (slen : N) (n : Z) | GPad (schars sbytes pb : N) (width : Z) | GBytes (n : Z).
 Definition gstep (cap : N) (m : mem) (o : gop) : res * mem * list evt :=
   match o with
   | GStr len => op_string m len
@@ -190,7 +192,7 @@ Definition gstep (cap : N) (m : mem) (o : gop) : res * mem * list evt :=
   | GVecPush v => let '(r, m', _, t) := op_vec_push cap m v in (r, m', t)
   | GVecReserve v a => let '(r, m', _, t) := op_vec_reserve cap m v a in (r, m', t)
   | GRepeat sl n => op_repeat cap m sl n
-  | GPad sl w => op_pad cap m sl w
+  | GPad sc sb pb w => op_pad cap m sc sb pb w
   | GBytes n => op_bytes cap m n
   end.
 Fixpoint grun (cap : N) (m : mem) (h : list gop) : mem :=
